@@ -345,6 +345,11 @@ class Interp:
         t = node.target
         if isinstance(t, ast.Name):
             cur = self.load_name(t.id, env)
+            if isinstance(cur, PObj):
+                nm = {ast.BitOr: '__ior__', ast.BitAnd: '__iand__', ast.BitXor: '__ixor__', ast.Add: '__iadd__'}.get(type(node.op))
+                if nm and nm in cur.methods:
+                    env[t.id] = self.call(cur.methods[nm], [cur, self.eval(node.value, env)], {})
+                    return
             if isinstance(cur, (PList, SeqBox)) and isinstance(node.op, ast.Add):
                 self.call_method(cur, 'extend', [self.eval(node.value, env)], {})
                 return
